@@ -216,6 +216,18 @@ pub struct Setup {
     pub ctl: Vec<ProbeCtl>,
     pub listen: Vec<Vec<(ListenerId, Multiaddr)>>,
     pub mon: Mon,
+    /// a node whose transport upgrades every connection in the dialer role: dials towards its listeners are made
+    /// with `override_role()` (hole-punching style), so the dialing swarm takes the listener role in the upgrade
+    pub reversed: Option<usize>,
+}
+
+fn d_addr(a: Multiaddr, ov: bool) -> DialOpts {
+    let b = DialOpts::unknown_peer_id().address(a);
+    if ov { b.override_role().build() } else { b.build() }
+}
+fn d_peer(p: PeerId, v: Vec<Multiaddr>, c: PeerCondition, ov: bool) -> DialOpts {
+    let b = DialOpts::peer_id(p).addresses(v).condition(c);
+    if ov { b.override_role().build() } else { b.build() }
 }
 
 fn mem(n: u64) -> Multiaddr {
@@ -226,10 +238,15 @@ pub fn setup(rng: &mut Rng, n: usize, chunking: bool) -> Setup {
     let mut net: Net<B> = Net::new(rng.next_u64(), chunking);
     let mut ctl = vec![];
     let mut listen = vec![];
+    let reversed = if n >= 3 && rng.chance(1, 4) { Some(n - 1) } else { None };
     for i in 0..n {
         let (probe, c) = Probe::new(i as u8);
         let key = vnet::keypair(rng.next_u64());
-        net.add_node(key, move |_, _| Recorder::new(probe), |c| c.with_idle_connection_timeout(std::time::Duration::from_secs(3600)));
+        if reversed == Some(i) {
+            net.add_node_reversed(key, move |_, _| Recorder::new(probe), |c| c.with_idle_connection_timeout(std::time::Duration::from_secs(3600)));
+        } else {
+            net.add_node(key, move |_, _| Recorder::new(probe), |c| c.with_idle_connection_timeout(std::time::Duration::from_secs(3600)));
+        }
         ctl.push(c);
         let mut ls = vec![];
         for k in 0..(1 + rng.usize(2)) {
@@ -248,7 +265,7 @@ pub fn setup(rng: &mut Rng, n: usize, chunking: bool) -> Setup {
         net.board.set_route(&mem(9100 + i as u64), Route::Manual);
         net.board.set_route(&mem(9200 + i as u64), Route::Manual);
     }
-    Setup { net, ctl, listen, mon: Mon::new(n) }
+    Setup { net, ctl, listen, mon: Mon::new(n), reversed }
 }
 
 impl Setup {
@@ -305,29 +322,30 @@ impl Setup {
             j = (j + 1) % n;
         }
         let pj = self.net.peer(j);
+        let (ovj, ovi) = (self.reversed == Some(j), self.reversed == Some(i));
         let w = [14u32, 12, 5, 5, 3, 4, 4, 6, 5, 6, 8, 6, 7, 7, 5, 8, 3, 1, 1, 6, 30];
         match rng.weighted(&w) {
             0 => {
                 let a = self.good_addr(rng, j);
-                self.app_dial(i, DialOpts::unknown_peer_id().address(a).build(), "dial_addr");
+                self.app_dial(i, d_addr(a, ovj), "dial_addr");
             }
             1 => {
                 let a = self.good_addr(rng, j);
-                self.app_dial(i, DialOpts::peer_id(pj).addresses(vec![a]).condition(PeerCondition::Always).build(), "dial_peer_addr");
+                self.app_dial(i, d_peer(pj, vec![a], PeerCondition::Always, ovj), "dial_peer_addr");
             }
             2 => {
                 // wrong peer: expect k but address of j
                 let k = (j + 1 + rng.usize(n.max(2) - 1)) % n;
                 let pk = if k == j { PeerId::random() } else { self.net.peer(k) };
                 let a = self.good_addr(rng, j);
-                self.app_dial(i, DialOpts::peer_id(pk).addresses(vec![a]).condition(PeerCondition::Always).build(), "dial_wrong_peer");
+                self.app_dial(i, d_peer(pk, vec![a], PeerCondition::Always, ovj), "dial_wrong_peer");
             }
             3 => self.app_dial(i, DialOpts::unknown_peer_id().address(mem(9001)).build(), "dial_refused"),
             4 => self.app_dial(i, DialOpts::unknown_peer_id().address(mem(9002)).build(), "dial_unsupported"),
             5 => {
                 // self via alias (with or without expected peer)
                 let a = mem(7000 + i as u64);
-                let o = if rng.bool() { DialOpts::unknown_peer_id().address(a).build() } else { DialOpts::peer_id(self.net.peer(i)).addresses(vec![a]).condition(PeerCondition::Always).build() };
+                let o = if rng.bool() { d_addr(a, ovi) } else { d_peer(self.net.peer(i), vec![a], PeerCondition::Always, ovi) };
                 self.app_dial(i, o, "dial_self");
             }
             6 => self.app_dial(i, DialOpts::peer_id(pj).condition(PeerCondition::Always).build(), "dial_no_addresses"),
@@ -335,11 +353,11 @@ impl Setup {
                 let a = self.good_addr(rng, j);
                 let mut v = vec![mem(9001), a, mem(9003)];
                 rng.shuffle(&mut v);
-                self.app_dial(i, DialOpts::peer_id(pj).addresses(v).condition(PeerCondition::Always).build(), "dial_multi");
+                self.app_dial(i, d_peer(pj, v, PeerCondition::Always, ovj), "dial_multi");
             }
             8 => {
                 let a = mem(8000 + j as u64);
-                let o = if rng.bool() { DialOpts::unknown_peer_id().address(a).build() } else { DialOpts::peer_id(pj).addresses(vec![a]).condition(PeerCondition::Always).build() };
+                let o = if rng.bool() { d_addr(a, ovj) } else { d_peer(pj, vec![a], PeerCondition::Always, ovj) };
                 self.app_dial(i, o, "dial_handshake_cut");
             }
             9 => {
@@ -350,7 +368,7 @@ impl Setup {
             10 => {
                 let a = self.good_addr(rng, j);
                 let c = *rng.pick(&[PeerCondition::Disconnected, PeerCondition::NotDialing, PeerCondition::DisconnectedAndNotDialing]);
-                self.app_dial(i, DialOpts::peer_id(pj).addresses(vec![a]).condition(c).build(), "dial_conditional");
+                self.app_dial(i, d_peer(pj, vec![a], c, ovj), "dial_conditional");
             }
             11 => {
                 // behaviour-initiated dial
@@ -359,10 +377,10 @@ impl Setup {
                 }
                 self.mon.op("behaviour_dial");
                 let o = match rng.usize(4) {
-                    0 => DialOpts::peer_id(pj).addresses(vec![self.good_addr(rng, j)]).condition(PeerCondition::Always).build(),
+                    0 => d_peer(pj, vec![self.good_addr(rng, j)], PeerCondition::Always, ovj),
                     1 => DialOpts::unknown_peer_id().address(mem(9001)).build(),
                     2 => DialOpts::peer_id(pj).condition(PeerCondition::Always).build(),
-                    _ => DialOpts::peer_id(pj).addresses(vec![self.good_addr(rng, j)]).build(),
+                    _ => d_peer(pj, vec![self.good_addr(rng, j)], PeerCondition::DisconnectedAndNotDialing, ovj),
                 };
                 self.ctl[i].push(ToSwarm::Dial { opts: o });
             }
@@ -372,7 +390,8 @@ impl Setup {
                 if !p.is_empty() {
                     self.mon.op("resolve_manual");
                     let d = p[rng.usize(p.len())];
-                    let o = if rng.bool() { Outcome::Fail } else { Outcome::ConnectTo(self.good_addr(rng, j)) };
+                    // manual dials were built without override_role: never connect them to the role-reversed node
+                    let o = if rng.bool() || ovj { Outcome::Fail } else { Outcome::ConnectTo(self.good_addr(rng, j)) };
                     self.net.board.resolve(d, o);
                 }
             }
